@@ -6,6 +6,7 @@ import Oas3Model.Driver.Path
 import Oas3Model.Driver.Client
 import Oas3Model.Driver.Server
 import Oas3Model.Driver.Interop
+import Oas3Model.Driver.ReqInterop
 import Oas3Model.Driver.Graph
 import Oas3Model.Driver.Registry
 import Oas3Model.Driver.Cli
@@ -28,6 +29,7 @@ def allOps : List (String × Handler) := List.flatten [
   Oas3.Driver.Client.ops,
   Oas3.Driver.Server.ops,
   Oas3.Driver.Interop.ops,
+  Oas3.Driver.ReqInterop.ops,
   Oas3.Driver.Graph.ops,
   Oas3.Driver.Registry.ops,
   Oas3.Driver.Cli.ops,
